@@ -253,9 +253,16 @@ func GenAnteCase(seed uint64, idx int) AnteCase {
 	case k < 30: // one leaf at depth 1..6 (and beyond the limit)
 		c.Msgs = []AMsg{nestChain(1+r.Intn(7), leafPool[r.Intn(len(leafPool))])}
 	case k < 42: // restricted leaf next to a harmless one
-		c.Msgs = []AMsg{{Kind: leafPool[2+r.Intn(len(leafPool)-2)]}, {Kind: "send"}}
+		harmless := AMsg{Kind: "send"}
+		if r.Chance(50) {
+			harmless = nestChain(1+r.Intn(2), "send") // a harmless exec before / after a restricted sibling
+		}
+		c.Msgs = []AMsg{{Kind: leafPool[2+r.Intn(len(leafPool)-2)]}, harmless}
 		if r.Chance(50) {
 			c.Msgs[0], c.Msgs[1] = c.Msgs[1], c.Msgs[0]
+		}
+		if r.Chance(20) {
+			c.Msgs = append(c.Msgs, AMsg{Kind: "send"})
 		}
 	case k < 55: // settlement-only lists
 		n := 1 + r.Intn(3)
